@@ -82,9 +82,10 @@ def process_renames(formula, collector, renamer):
   # We need to replace it with "rec." before parsing the formula, and restore it back after
   # the surgery.
   # Keep the dollar replacer object, so that later we know how to restore properly.
-  dollar_replacer = get_dollar_replacer(formula)
-  formula_nodollar = dollar_replacer.get_text()
   try:
+    # Note that get_dollar_replacer() parses the formula too, so may raise SyntaxError as well.
+    dollar_replacer = get_dollar_replacer(formula)
+    formula_nodollar = dollar_replacer.get_text()
     atok = asttokens.ASTTokens(formula_nodollar, tree=ast.parse(formula_nodollar, mode='eval'))
     collector.visit(atok.tree)
   except SyntaxError:
